@@ -134,11 +134,15 @@ def run_all(ctx, cases, want):
     """want: 'counts' | 'caps' | 'contents' — which divergences this property reports."""
     pid = ctx.pid
     ident = lambda s: "none" if s is None else s
-    ctx.correspond("alloc", cases, canon=ident, skip=lambda m: False,
+    ctx.correspond("alloc", cases, canon=ident, skip=lambda m: m.startswith("skip model-"),
                    nontrivial=lambda c, a, b: b is not None and len(b.split()) >= 3)
     impl = vlib.run_impl("alloc", cases)
     cref = vlib.run_model("alloc", ["ref" + c[3:] for c in cases]) if want == "counts" else [None] * len(cases)
     f2 = vlib.run_model("alloc", ["f2" + c[3:] for c in cases])
+    # a line the extracted model gave up on (per-line time limit on a loaded machine) is not evaluated
+    cref = [None if (x or "").startswith("skip model-") else x for x in cref]
+    unknown_f2 = [(x or "").startswith("skip model-") for x in f2]
+    f2 = ["-" if u else x for x, u in zip(f2, unknown_f2)]
     nsteps = 0
     for c, o, flags, cr in zip(cases, impl, f2, cref):
         parts = c.split()
